@@ -555,4 +555,75 @@ Proof.
     apply sort_of_sorted. unfold ks. apply sort_sorted.
 Qed.
 
+(* ---- all sixteen *)
+Definition needs_ext0 (ids : list N) : bool := existsb (fun i => existsb (N.eqb i) [1; 2; 3; 14; 15]) ids.
+Theorem x_stable ll ids : (needs_ext0 ids = true -> ext0_ok ll) -> (In 7 ids -> ll = true) -> (forall i, In i ids -> 1 <= i <= 16) ->
+  ext_stable_on X xpr xpa xguard ll ids.
+Proof.
+  intros H0' H7 Hr i x e Hi HG Hx Hp. pose proof (Hr i Hi) as Hb.
+  assert (H0 : In i [1; 2; 3; 14; 15] -> ext0_ok ll).
+  { intros Hin. apply H0'. unfold needs_ext0. apply existsb_exists. exists i. split; [exact Hi|]. apply existsb_exists. exists i. split; [exact Hin|apply N.eqb_refl]. }
+  assert (Hcase : i = 1 \/ i = 2 \/ i = 3 \/ i = 4 \/ i = 5 \/ i = 6 \/ i = 7 \/ i = 8 \/ i = 9 \/ i = 10 \/ i = 11 \/ i = 12 \/
+                  i = 13 \/ i = 14 \/ i = 15 \/ i = 16) by lia.
+  destruct Hcase as [->|[->|[->|[->|[->|[->|[->|[->|[->|[->|[->|[->|[->|[->|[->| ->]]]]]]]]]]]]]]].
+  - exact (law_ext ll 1 (H0 ltac:(cbn; tauto)) (or_introl eq_refl) x e HG Hx Hp).
+  - exact (law_ext ll 2 (H0 ltac:(cbn; tauto)) (or_intror (or_introl eq_refl)) x e HG Hx Hp).
+  - exact (law_ext ll 3 (H0 ltac:(cbn; tauto)) (or_intror (or_intror (or_introl eq_refl))) x e HG Hx Hp).
+  - exact (law_4 ll x e HG Hx Hp).
+  - exact (law_5 ll x e HG Hx Hp).
+  - exact (law_6 ll x e HG Hx Hp).
+  - rewrite (H7 Hi) in *. exact (law_7 x e HG Hx Hp).
+  - exact (law_8 ll x e HG Hx Hp).
+  - exact (law_9 ll x e HG Hx Hp).
+  - exact (law_10 ll x e HG Hx Hp).
+  - exact (law_11 ll x e HG Hx Hp).
+  - exact (law_12 ll x e HG Hx Hp).
+  - exact (law_13 ll x e HG Hx Hp).
+  - exact (law_14 ll (H0 ltac:(cbn; tauto)) x e HG Hx Hp).
+  - exact (law_ext ll 15 (H0 ltac:(cbn; tauto)) (or_intror (or_intror (or_intror (or_introl eq_refl)))) x e HG Hx Hp).
+  - exact (law_16 ll x e HG Hx Hp).
+Qed.
+
 End Ext0.
+
+(* the generated tables: the codec numbers the structs use are among the sixteen; only the sources list
+   (read through the lossless reader) uses Signature; which structs have a codec with a guard *)
+Definition ids_ok (fs : list fieldspec) : bool := forallb (fun i => (1 <=? i) && (i <=? 16)) (ext_ids fs).
+Lemma ids_ok_all : forallb ids_ok [fs_control_source; fs_control_binary; fs_header; fs_files; fs_license; fs_release;
+  fs_apt_source; fs_apt_package; fs_removal; fs_buildinfo; fs_dep3; fs_repository] = true.
+Proof. vm_compute. reflexivity. Qed.
+Lemma ids_ok_range fs i : ids_ok fs = true -> In i (ext_ids fs) -> 1 <= i <= 16.
+Proof.
+  unfold ids_ok. intros H Hi. rewrite forallb_forall in H. specialize (H i Hi). apply andb_true_iff in H. destruct H as [H1 H2].
+  apply N.leb_le in H1. apply N.leb_le in H2. lia.
+Qed.
+Definition no_guarded (fs : list fieldspec) : bool := forallb (fun i => negb ((i =? 7) || (i =? 11) || (i =? 12))) (ext_ids fs).
+Lemma no_guarded_structs : forallb no_guarded [fs_control_binary; fs_header; fs_files; fs_license; fs_release;
+  fs_apt_source; fs_apt_package; fs_removal; fs_dep3] = true.
+Proof. vm_compute. reflexivity. Qed.
+Lemma no_sig_structs : forallb (fun fs => negb (existsb (N.eqb 7) (ext_ids fs))) [fs_control_source; fs_control_binary; fs_header; fs_files; fs_license; fs_release;
+  fs_apt_source; fs_apt_package; fs_removal; fs_buildinfo; fs_dep3] = true.
+Proof. vm_compute. reflexivity. Qed.
+Ltac dpos p := try reflexivity; try congruence; let q := fresh "q" in destruct p as [q|q|]; [dpos q|dpos q|try reflexivity; try congruence].
+Lemma no_guarded_guard fs get : no_guarded fs = true -> ext_guard xguard fs get = true.
+Proof.
+  unfold no_guarded, ext_guard. intros H. apply forallb_forall. intros f Hf. destruct (f_de f) as [| | | | | | | | |i|] eqn:Ed; try reflexivity.
+  destruct (get (f_key f)); [|reflexivity]. rewrite forallb_forall in H. specialize (H i (ext_ids_in _ _ _ Hf Ed)).
+  apply negb_true_iff in H. apply orb_false_iff in H. destruct H as [H H12]. apply orb_false_iff in H. destruct H as [H7 H11].
+  apply N.eqb_neq in H7. apply N.eqb_neq in H11. apply N.eqb_neq in H12. unfold xguard.
+  destruct i as [|q0]; [reflexivity|]. dpos q0.
+Qed.
+
+(* the law for one struct of the tables *)
+Lemma xs_struct E0 p0 q0 ll fs : In fs [fs_control_source; fs_control_binary; fs_header; fs_files; fs_license; fs_release;
+                        fs_apt_source; fs_apt_package; fs_removal; fs_buildinfo; fs_dep3; fs_repository] ->
+  (needs_ext0 (ext_ids fs) = true -> ext0_ok E0 p0 q0 ll) -> (fs = fs_repository -> ll = true) ->
+  ext_stable_on (xval E0) (xprint E0 p0) (xparse E0 q0) xguard ll (ext_ids fs).
+Proof.
+  intros Hfs H0 Hrep. apply x_stable; [exact H0| |].
+  - intros H7. pose proof no_sig_structs as Hn. cbn [In] in Hfs.
+    destruct Hfs as [<-|[<-|[<-|[<-|[<-|[<-|[<-|[<-|[<-|[<-|[<-|[<-|[]]]]]]]]]]]]]; try (apply Hrep; reflexivity);
+      (exfalso; revert H7; vm_compute; intuition discriminate).
+  - intros i Hi. apply (ids_ok_range fs); [|exact Hi]. pose proof ids_ok_all as Ha. rewrite forallb_forall in Ha. apply Ha. exact Hfs.
+Qed.
+
